@@ -140,6 +140,7 @@ type cluster struct {
 	viols    []violation
 	violSeen map[string]bool
 	tainted   string
+	lost      bool // an acknowledged write was found missing from a leader
 	figure8   bool
 	secondary []string
 	unreal   string
@@ -340,6 +341,14 @@ func (c *cluster) violate(sig, detail string) {
 		if strings.HasPrefix(sig, p) {
 			c.tainted = sig
 		}
+	}
+	if (c.tainted != "" || strings.HasPrefix(sig, "figure8:")) && c.modelSkip == "" {
+		// from here on the real cluster is outside the invariants the model's transitions rely on (e.g. a database
+		// commit offset beyond the log): comparing it with the model any further says nothing
+		c.modelSkip = "first violation of the trace: " + sig
+		c.tokCut = len(c.toks)
+		c.c01AtCut = !c.lost
+		c.inconsAtCut = c.inconsistentAttaches
 	}
 	if strings.HasPrefix(sig, "figure8:") {
 		c.figure8 = true
